@@ -571,6 +571,85 @@ Section Programs.
         apply Permutation_rev.
   Qed.
 
+  (* ---- GenericArrayIter::clone (src/iter.rs): the new iterator's slots zipped with the live window of
+          `self` (borrowed); each clone is written, then the NEW iterator's index_back advanced, so that
+          its Drop releases exactly the clones made when a later clone() panics.  The caller's function
+          here is T::clone: cl j x = f j [x]. ---- *)
+  Definition cl_of (j : nat) (x : Z) : Z := f j [x].
+
+  Lemma clone_step nd a i st x : nth_error a i = Some x ->
+    s_pos st = [("index_back", i)] -> length (s_calls st) = i ->
+    step [a] false f g pan (pipe_of gen_iter_clone nd) i st =
+    if is_pan pan i
+    then (RPanic, mkP [("index_back", i)] (s_ev st) (s_calls st ++ [[x]]) (s_written st) (s_acc st))
+    else (RUnit, mkP [("index_back", S i)] (s_ev st) (s_calls st ++ [[x]]) (s_written st ++ [cl_of i x]) (s_acc st)).
+  Proof.
+    intros Hx Hp Hl.
+    unfold step, pipe_of, select; cbn; unfold arg_elem; cbn. rewrite Hx. cbn. rewrite Hp. cbn. rewrite Hl.
+    destruct (is_pan pan i); cbn; unfold leave; cbn; rewrite ?app_nil_r; reflexivity.
+  Qed.
+
+  Lemma clone_run_spec nd a : forall l i st,
+    (forall j x, nth_error l j = Some x -> nth_error a (i + j) = Some x) ->
+    s_pos st = [("index_back", i)] -> length (s_calls st) = i -> length (s_written st) = i ->
+    match clone_loop cl_of pan i l (s_written st) with
+    | (Some all, _) =>
+      fold_run [a] false f g pan (pipe_of gen_iter_clone nd) (length l) i st =
+      (true, mkP [("index_back", i + length l)] (s_ev st) (s_calls st ++ map (fun x => [x]) l) all (s_acc st), i + length l)
+    | (None, made) =>
+      exists k st', fold_run [a] false f g pan (pipe_of gen_iter_clone nd) (length l) i st = (false, st', S k) /\
+        s_pos st' = [("index_back", k)] /\ s_written st' = made /\ length made = k /\ s_ev st' = s_ev st /\
+        s_calls st' = (s_calls st ++ map (fun x => [x]) (firstn (S (k - i)) l))%list /\ i <= k
+    end.
+  Proof.
+    induction l as [|x l IH]; intros i st Hl Hp Hc Hw.
+    - cbn. rewrite Nat.add_0_r, app_nil_r. rewrite <- Hp. now destruct st.
+    - cbn [clone_loop length fold_run].
+      assert (Hx : nth_error a i = Some x) by (rewrite <- (Nat.add_0_r i); apply Hl; reflexivity).
+      rewrite (clone_step nd a i st x Hx Hp Hc).
+      change (match pan with Some k => Nat.eqb i k | None => false end) with (is_pan pan i).
+      destruct (is_pan pan i) eqn:Hpan.
+      + exists i. eexists. split; [reflexivity|]. cbn. rewrite Nat.sub_diag. cbn. repeat split; try reflexivity; try assumption; try lia.
+      + specialize (IH (S i) (mkP [("index_back", S i)] (s_ev st) (s_calls st ++ [[x]]) (s_written st ++ [cl_of i x]) (s_acc st))).
+        cbn [s_pos s_calls s_written s_ev s_acc] in IH.
+        unfold cl_of at 1 in IH. fold (cl_of i x) in IH.
+        destruct (clone_loop cl_of pan (S i) l (s_written st ++ [cl_of i x])) as [[all|] made] eqn:Hloop.
+        * rewrite IH; try reflexivity.
+          -- rewrite <- !app_assoc. cbn. replace (i + S (length l)) with (S (i + length l)) by lia. reflexivity.
+          -- intros j y Hy. replace (S i + j) with (i + S j) by lia. now apply Hl.
+          -- rewrite app_length. cbn. lia.
+          -- rewrite app_length. cbn. lia.
+        * destruct IH as (k & st' & Hrun & Hp' & Hw' & Hlen & He' & Hc' & Hik); try reflexivity.
+          -- intros j y Hy. replace (S i + j) with (i + S j) by lia. now apply Hl.
+          -- rewrite app_length. cbn. lia.
+          -- rewrite app_length. cbn. lia.
+          -- exists k, st'. split; [exact Hrun|]. repeat split; try assumption; try lia.
+             replace (k - i) with (S (k - S i)) by lia. cbn [firstn map]. rewrite Hc', <- app_assoc. reflexivity.
+  Qed.
+
+  Theorem tie_iter_clone nd a :
+    match clone_loop cl_of pan 0 a [] with
+    | (Some clones, _) =>
+      run_for_each [a] false f g pan (pipe_of gen_iter_clone nd) (length a) =
+      (Ok clones, [], [], [], map (fun x => [x]) a)
+    | (None, made) =>
+      exists c, run_for_each [a] false f g pan (pipe_of gen_iter_clone nd) (length a) =
+                (Panic, [], [], map EDrop made, c)
+    end.
+  Proof.
+    pose proof (clone_run_spec nd a a 0 (init_state [a] (pipe_of gen_iter_clone nd) 0%Z)) as H.
+    cbn [s_written init_state] in H.
+    destruct (clone_loop cl_of pan 0 a []) as [[clones|] made] eqn:Hloop.
+    - unfold run_for_each. rewrite H; try reflexivity. intros j x Hj. exact Hj.
+    - destruct H as (k & st' & Hrun & Hp' & Hw' & Hlen & He' & Hc' & _); try reflexivity.
+      { intros j x Hj. exact Hj. }
+      exists (s_calls st'). unfold run_for_each. rewrite Hrun.
+      assert (Ht : teardown [a] false (pipe_of gen_iter_clone nd) st' (S k) = []) by reflexivity.
+      assert (Hb : builder_teardown (pipe_of gen_iter_clone nd) st' = map EDrop made).
+      { unfold builder_teardown. cbn. rewrite Hp'. cbn. rewrite Hw', app_nil_r, firstn_all2 by lia. reflexivity. }
+      rewrite He', Ht, Hb. reflexivity.
+  Qed.
+
   (* ---- generate: enumerate + the builder's destination slots; `dst.write(f(i)); *position += 1` ---- *)
   Lemma gen_step so nd i st :
     s_pos st = posvec [] (pipe_of gen_generate nd) i -> length (s_calls st) = i ->
